@@ -28,6 +28,7 @@ rank = z3.Function("rank", Name, I)               # numeric suffix of a canonica
 enc = z3.Function("enc", Mono, I, Key)            # storage key of a row of width D
 msum = z3.Function("msum", Mono, I, I)            # msum(m, D) = sum_{d<D} expo(m,d)
 mzero = z3.Function("mzero", Mono, I, B)          # all D entries zero
+unfold_at = z3.Function("unfold_at", I, B)        # ghost marker: recursive ghost definitions unfold only at marked arguments
 rpow = z3.Function("rpow", R, I, R)               # rpow(x, e) = x ** e for a natural exponent e (uninterpreted: only its identity matters)
 
 
